@@ -208,7 +208,7 @@ impl Prop for C08 {
     }
     fn runs(&self, tier: Tier) -> u64 {
         match tier {
-            Tier::Quick => 640,
+            Tier::Quick => 1600,
             Tier::Thorough => 12000,
         }
     }
